@@ -22,9 +22,21 @@ Rng(q) == {q[i] : i \in DOMAIN q}
 
 Shapes == {"void", "export", "method", "inst", "instname", "namedinsts",
            "instnames", "objs_i", "objs_c", "paths_i", "paths_c",
-           "queryobjs", "pull_inst", "pull_path", "pull_query", "classes",
+           "queryobjs", "pull_inst", "pull_path", "pull_query",
+           "pull_queryc", "classes",
            "classnames", "class", "qualdecls", "qualdecl"}
-PullShapes == {"pull_inst", "pull_path", "pull_query"}
+(* Operation ARGUMENTS that change the documented result - and with it the  *)
+(* processing of the response - give a result shape of their own:           *)
+(* pull_queryc = answer to OpenQueryInstances / IterQueryInstances called   *)
+(* with ReturnQueryResultClass=True: the result carries the CIMClass of the *)
+(* QueryResultClass output parameter (pull_query: that item is None and the *)
+(* parameter is ignored).                                                   *)
+PullShapes == {"pull_inst", "pull_path", "pull_query", "pull_queryc"}
+QrcShapes == {"pull_query", "pull_queryc"}
+(* shapes whose result is a list of any number of objects                   *)
+ListShapes == {"namedinsts", "instnames", "objs_i", "objs_c", "paths_i",
+               "paths_c", "queryobjs", "classes", "classnames", "qualdecls"}
+              \cup PullShapes
 
 (* where typed values / names / paths can sit in a response of a shape      *)
 ShapeSites ==
@@ -57,6 +69,8 @@ ShapeSites ==
   @@ "pull_path" :> {"key", "keyuntyped", "ref", "path"}
   @@ "pull_query" :> {"prop", "proparr", "qual", "qualarr", "emb", "key",
           "keyuntyped", "obj", "ref"}
+  @@ "pull_queryc" :> {"prop", "proparr", "qual", "qualarr", "emb", "key",
+          "keyuntyped", "obj", "ref"}
   @@ "qualdecl" :> {"qdval", "qdarr"}
   @@ "qualdecls" :> {"qdval", "qdarr"}
   @@ "queryobjs" :> {"prop", "proparr", "qual", "qualarr", "emb", "key",
@@ -81,6 +95,12 @@ ErrorSites == {"prop", "proparr", "qual", "qualarr", "emb", "key",
 (* any other name), child element kind (cls).  ERROR / IRETURNVALUE /        *)
 (* RETURNVALUE children themselves are the kinds r_*, o_irv, o_struct,       *)
 (* m_misc.                                                                   *)
+(* Kind o_het = HETEROGENEOUS result list: the objects of a multi-object     *)
+(* result are varied independently - the first object is of kind ty, at      *)
+(* least one later object of kind cls # ty (any order after the first).      *)
+(* Covers the DTD-valid mixes (instance- and class-level objects in the      *)
+(* polymorphic elements OBJECTPATH, VALUE.OBJECT, VALUE.OBJECTWITHPATH,      *)
+(* VALUE.OBJECTWITHLOCALPATH) and the DTD-invalid ones (unlike elements).    *)
 PvPos == {"only",      \* the only child of the response element
           "first",     \* before the return element (which is present)
           "last",      \* after the return element and all other children
@@ -99,8 +119,31 @@ PvApplicable(shape, d) ==
                ELSE {"IRETURNVALUE", "ERROR", "other"}
                     \cup (IF shape \in PullShapes
                           THEN {"EndOfSequence", "EnumerationContext"} ELSE {})
-                    \cup (IF shape = "pull_query"
+                    \cup (IF shape \in QrcShapes
                           THEN {"QueryResultClass"} ELSE {}))
+
+(* child element kinds of IRETURNVALUE (DTD: a sequence of LIKE elements of  *)
+(* one of these names; /i and /c = the element holds an instance-level or a  *)
+(* class-level object: VALUE.OBJECT*, OBJECTPATH are polymorphic), plus two  *)
+(* names the DTD does not allow there                                        *)
+IrvKinds == {"CLASSNAME", "INSTANCENAME", "VALUE",
+             "VALUE.OBJECTWITHPATH/i", "VALUE.OBJECTWITHPATH/c",
+             "VALUE.OBJECTWITHLOCALPATH/i",
+             "VALUE.OBJECTWITHLOCALPATH/c", "VALUE.OBJECT/i",
+             "VALUE.OBJECT/c", "OBJECTPATH/i", "OBJECTPATH/c",
+             "QUALIFIER.DECLARATION", "VALUE.ARRAY", "VALUE.REFERENCE",
+             "CLASS", "INSTANCE", "INSTANCEPATH",
+             "VALUE.NAMEDINSTANCE", "VALUE.INSTANCEWITHPATH",
+             "VALUE.NAMEDOBJECT", "UNKNOWN"}
+(* element name of a kind                                                    *)
+ElemOf(e) ==
+  CASE e \in {"VALUE.OBJECTWITHPATH/i", "VALUE.OBJECTWITHPATH/c"} ->
+         "VALUE.OBJECTWITHPATH"
+    [] e \in {"VALUE.OBJECTWITHLOCALPATH/i", "VALUE.OBJECTWITHLOCALPATH/c"} ->
+         "VALUE.OBJECTWITHLOCALPATH"
+    [] e \in {"VALUE.OBJECT/i", "VALUE.OBJECT/c"} -> "VALUE.OBJECT"
+    [] e \in {"OBJECTPATH/i", "OBJECTPATH/c"} -> "OBJECTPATH"
+    [] OTHER -> e
 
 (* defect kinds: stage, parameter alphabets, shapes they make sense for     *)
 KindTab ==
@@ -150,18 +193,15 @@ KindTab ==
                  "out_hex", "retval_hex", "out_bool_false",
                  "out_str_for_num"},
         shapes |-> {"method"}]
+  @@ "o_het" :> [stage |-> "optype",
+        sites |-> {""},
+        tys |-> IrvKinds,
+        clss |-> IrvKinds,
+        shapes |-> ListShapes]
   @@ "o_irv" :> [stage |-> "optype",
         sites |-> {""},
         tys |-> {""},
-        clss |-> {"CLASSNAME", "INSTANCENAME", "VALUE",
-                 "VALUE.OBJECTWITHPATH/i", "VALUE.OBJECTWITHPATH/c",
-                 "VALUE.OBJECTWITHLOCALPATH/i",
-                 "VALUE.OBJECTWITHLOCALPATH/c", "VALUE.OBJECT/i",
-                 "VALUE.OBJECT/c", "OBJECTPATH/i", "OBJECTPATH/c",
-                 "QUALIFIER.DECLARATION", "VALUE.ARRAY", "VALUE.REFERENCE",
-                 "CLASS", "INSTANCE", "INSTANCEPATH",
-                 "VALUE.NAMEDINSTANCE", "VALUE.INSTANCEWITHPATH",
-                 "VALUE.NAMEDOBJECT", "UNKNOWN"},
+        clss |-> IrvKinds,
         shapes |-> Shapes]
   @@ "o_pv" :> [stage |-> "optype",
         sites |-> PvPos,
@@ -179,7 +219,7 @@ KindTab ==
         tys |-> {""},
         clss |-> {"missing", "emptyval", "novalue", "dup", "array", "ref",
                  "inst", "long", "paramtype_bogus"},
-        shapes |-> {"pull_inst", "pull_path", "pull_query"}]
+        shapes |-> PullShapes]
   @@ "p_eos" :> [stage |-> "optype",
         sites |-> {""},
         tys |-> {""},
@@ -187,14 +227,14 @@ KindTab ==
                  "missing_both", "missing_eos", "bogus", "emptyval",
                  "novalue", "dup", "ws", "array", "paramtype_bogus", "one",
                  "true_ctx_none"},
-        shapes |-> {"pull_inst", "pull_path", "pull_query"}]
+        shapes |-> PullShapes]
   @@ "p_misc" :> [stage |-> "optype",
         sites |-> {""},
         tys |-> {""},
         clss |-> {"unknownparam", "empty", "noname", "emptyname",
                  "twokids", "qrc_class", "qrc_notclass", "qrc_novalue",
-                 "embattr", "badchild", "onlyirv"},
-        shapes |-> {"pull_inst", "pull_path", "pull_query"}]
+                 "qrc_missing", "embattr", "badchild", "onlyirv"},
+        shapes |-> PullShapes]
   @@ "r_child" :> [stage |-> "error",
         sites |-> {""},
         tys |-> {""},
@@ -343,7 +383,9 @@ KindTab ==
                   "outparam", "outparamarr", "emb", "param"},
         tys |-> {""},
         clss |-> {"unknown", "empty", "upper", "reference", "missing",
-                 "ws"},
+                 "ws",
+                 "trail"},  \* valid type name + leading/trailing control
+                            \* character (char reference: &#10; &#13; &#9;)
         shapes |-> Shapes]
   @@ "w_enc" :> [stage |-> "xml",
         sites |-> {""},
@@ -381,6 +423,8 @@ ComboOk(d) ==
        [] d.cls = "two_values" -> d.site \in {"prop", "proparr", "qual", "qdval", "retval", "outparam"}
        [] OTHER -> FALSE
     [] d.k = "v_name" -> (d.cls \in ClassOnlyNames) = (d.site = "cls")
+    [] d.k = "v_deep" -> ~(d.site = "emb" /\ d.cls = "d2000")  \* size
+    [] d.k = "o_het" -> d.ty # d.cls      \* homogeneous lists: kind o_irv
     [] OTHER -> TRUE
 
 KnownDefect(d) ==
